@@ -5,11 +5,12 @@
 (* and the class/id lookups are exported for replay on real engines (and on *)
 (* engines reloaded from their serialized image, C08).                      *)
 (***************************************************************************)
-EXTENDS Cosmetic, TLC, Json
+EXTENDS CosParse, TLC, Json
 
 CONSTANTS U, K
-VARIABLES stage, part, L
-vars == <<stage, part, L>>
+VARIABLES stage, part, L,
+          raw          \* universe "parse" only: the line as written ("" elsewhere)
+vars == <<stage, part, L, raw>>
 
 HideR(locs, sel) == [C0 EXCEPT !.locs = locs, !.sel = sel]
 UnhideR(locs, sel) == [C0 EXCEPT !.locs = locs, !.sel = sel, !.unhide = TRUE]
@@ -93,8 +94,18 @@ PoolC18 == [i \in DOMAIN ArgTexts |-> JsR({H("a.com")}, ArgTexts[i], {})]
 HostsC18 == <<"a.com">>
 
 --------------------------------------------------------------------------
+\* universe "parse": cosmetic lines as TEXT, <locations>#<marker>#<body>; CosParse!ParseCos says whether the
+\* line is a rule and which (seeded by the location text)
+LocTexts == <<"", "a.com", "~a.com", "a.*", "~a.*", "a.com,b.com", "a.com,~s.a.com", "/re/", "a.com,/re/", ",a.com,", "[x]a.com",
+              "s.a.com,~a.*", "~/re/", ",">>
+Markers == {"", "@", "?", "@?", "%", "@%", "$", "@$", "x", "@@", "?x"}
+Bodies == {".x", "", " ", ".x ", " .x", "+js(sc1, x)", "+js()", "+js(sc1", "^script", ".x:style(color: red)", ".x:style(color: red",
+           ".x:remove()", ".x:remove-attr(href)", ".x:remove-attr(/re/)", ".x:remove-class(\"c\")", ".x:remove-class(c)",
+           ".x:remove-class('c')", ".x:remove-attr(href) ", "#id > .x", ".x:remove( )"}
+HostsParse == <<"a.com", "s.a.com", "b.com", "a.net">>
+
 Pool == CASE U = "c16" -> PoolC16 [] U = "c17" -> PoolC17 [] U = "c17b" -> PoolC17b [] U = "c18" -> PoolC18
-Hosts == CASE U = "c16" -> HostsC16 [] U = "c17" -> HostsC17 [] U = "c17b" -> HostsC17 [] U = "c18" -> HostsC18
+Hosts == CASE U = "parse" -> HostsParse [] U = "c16" -> HostsC16 [] U = "c17" -> HostsC17 [] U = "c17b" -> HostsC17 [] U = "c18" -> HostsC18
 Store == IF U = "c18" THEN StoreC18 ELSE StoreStd
 NetRules == IF U = "c16" THEN NetC16 ELSE <<>>
 Ghide(h) == U = "c16" /\ h \in GhideC16
@@ -104,11 +115,16 @@ IncSeqs(lo, n, k) ==
   IF k = 0 THEN {<<>>}
   ELSE {<<>>} \cup UNION { {<<i>> \o s : s \in IncSeqs(i + 1, n, k - 1)} : i \in lo..n }
 
-NParts == Len(Pool)
+NParts == IF U = "parse" THEN Len(LocTexts) ELSE Len(Pool)
 ListsOf(p) == {[j \in 1..Len(s) |-> Pool[s[j]]] : s \in {<<p>> \o t : t \in IncSeqs(p + 1, Len(Pool), K - 1)}}
 
-Init == stage = "seed" /\ part \in 1..NParts /\ L = <<>>
-Next == stage = "seed" /\ stage' = "case" /\ part' = part /\ L' \in ListsOf(part)
+Init == stage = "seed" /\ part \in 1..NParts /\ L = <<>> /\ raw = ""
+Next == /\ stage = "seed" /\ stage' = "case" /\ part' = part
+        /\ IF U = "parse"
+           THEN \E m \in Markers, b \in Bodies :
+                  /\ raw' = LocTexts[part] \o "#" \o m \o "#" \o b
+                  /\ L' = LET p == ParseCos(LocTexts[part], m, b) IN IF p.ok THEN <<p.r>> ELSE <<>>
+           ELSE L' \in ListsOf(part) /\ raw' = ""
 
 --------------------------------------------------------------------------
 PermBits(p) == (IF 0 \in p THEN 1 ELSE 0) + (IF 1 \in p THEN 2 ELSE 0)
@@ -143,7 +159,9 @@ PartitionOK ==
 Exported ==
   stage = "case" =>
     PrintT(ToJson([k |-> "cos", u |-> U,
-                   rules |-> [i \in DOMAIN L |-> [text |-> CosText(L[i]), perm |-> PermBits(L[i].perm)]],
+                   rules |-> IF U = "parse" THEN << [text |-> raw, perm |-> 0] >>
+                             ELSE [i \in DOMAIN L |-> [text |-> CosText(L[i]), perm |-> PermBits(L[i].perm)]],
+                   parse_ok |-> IF U = "parse" THEN <<Len(L) = 1>> ELSE <<>>,
                    net |-> NetRules,
                    views |-> [i \in DOMAIN Hosts |-> HostView(Hosts[i])]]))
 
